@@ -214,6 +214,9 @@ def tree_spec(rng, *, mn, mx, nfiles=None, piece=None, max_size=None, allow_nonu
             data = data[:max_size]
         pool.append(data)
         mt = rng.randrange(10**9, 4 * 10**9) * 10**9 + rng.choice([0, rng.randrange(10**9)])
+        if rng.random() < 0.08:
+            # time-stamps at the edges: the epoch itself, one nanosecond, before 1970, around 2**31 and 2**32 seconds
+            mt = rng.choice([0, 0, 1, -1, -10**9, 999_999_999, 2**31 * 10**9 - 1, 2**31 * 10**9, 2**32 * 10**9 + 5])
         e = _enc_path(rel)
         e['d'] = _b64.b64encode(data).decode()
         e['mt'] = mt
